@@ -2,6 +2,33 @@ module verifharness
 
 go 1.21.1
 
-require github.com/safing/portbase v0.0.0
+require github.com/safing/portbase v0.18.6
+
+require (
+	github.com/aead/ecdh v0.2.0 // indirect
+	github.com/fxamacker/cbor/v2 v2.5.0 // indirect
+	github.com/ghodss/yaml v1.0.0 // indirect
+	github.com/gofrs/uuid v4.4.0+incompatible // indirect
+	github.com/hashicorp/errwrap v1.1.0 // indirect
+	github.com/hashicorp/go-multierror v1.1.1 // indirect
+	github.com/hashicorp/go-version v1.6.0 // indirect
+	github.com/klauspost/cpuid/v2 v2.2.6 // indirect
+	github.com/mr-tron/base58 v1.2.0 // indirect
+	github.com/safing/jess v0.3.3 // indirect
+	github.com/satori/go.uuid v1.2.0 // indirect
+	github.com/tevino/abool v1.2.0 // indirect
+	github.com/tidwall/gjson v1.17.0 // indirect
+	github.com/tidwall/match v1.1.1 // indirect
+	github.com/tidwall/pretty v1.2.1 // indirect
+	github.com/tidwall/sjson v1.2.5 // indirect
+	github.com/vmihailenco/msgpack/v5 v5.4.1 // indirect
+	github.com/vmihailenco/tagparser/v2 v2.0.0 // indirect
+	github.com/x448/float16 v0.8.4 // indirect
+	github.com/zeebo/blake3 v0.2.3 // indirect
+	golang.org/x/crypto v0.17.0 // indirect
+	golang.org/x/exp v0.0.0-20231219180239-dc181d75b848 // indirect
+	golang.org/x/sys v0.15.0 // indirect
+	gopkg.in/yaml.v2 v2.4.0 // indirect
+)
 
 replace github.com/safing/portbase => /repo
